@@ -264,8 +264,6 @@ class C06(Engine):
         tf = dict(tree_files(sc["tree"])) if sc.get("tree") else {}
         for i, (op, o) in enumerate(zip(sc["ops"], ops)):
             delta = state_delta(pristine, o.get("state_before"))
-            if op["op"] == "api" and i > 0 and sc["ops"][0].get("no_compare") and "abort" not in (sc.get("tag") or "abort"):
-                pass
             if op["op"] == "api":
                 if op.get("faults") or op.get("no_compare"):
                     continue      # a predecessor only (its own read was made to fail / it is a cut file): nothing to compare
